@@ -1,6 +1,7 @@
 package c28
 
 import (
+	"bufio"
 	"bytes"
 	"crypto/sha256"
 	"encoding/hex"
@@ -22,7 +23,8 @@ import (
 // Case: one request description. Run signs it, checks that it is accepted, and
 // then applies the whole mutation catalogue (every position of every kind).
 type Case struct {
-	Req sigreq.Req `json:"req"`
+	Req   sigreq.Req `json:"req"`
+	Edits []Edit     `json:"edits,omitempty"` // additional single-byte edits of the wire bytes
 }
 
 type mutant struct {
@@ -724,6 +726,24 @@ func run(env *ev.Env, c Case) (o ev.Outcome) {
 		}
 		semantic++
 	}
+	// --- generated single-byte edits of the wire bytes ------------------------------------------------
+	if !q.TE {
+		raw := w.Bytes()
+		for _, e := range c.Edits {
+			v, sem := byteEdit(q, w, s, raw, e)
+			o.Sub++
+			if v != "" {
+				o.Failf("%s", v)
+				return
+			}
+			if sem {
+				semantic++
+				o.Count("byte-edit:semantic-rejected", 1)
+			} else {
+				o.Count("byte-edit:nonsemantic", 1)
+			}
+		}
+	}
 	// --- the same request, validly signed, but outside its time window ---------------------------
 	for name, d := range map[string]time.Duration{"window:signed-1h-ago": -time.Hour, "window:signed-1h-ahead": time.Hour, "window:signed-8d-ago": -8 * 24 * time.Hour} {
 		if q.Mode == sigreq.ModePresign && d == -time.Hour && q.Expires > 3000 {
@@ -767,7 +787,10 @@ func genCase(t *rapid.T, env *ev.Env) Case {
 	if sigreq.IsStreaming(r.Mode) && rapid.Bool().Draw(t, "teStream") {
 		r.TE = true
 	}
-	return Case{Req: r}
+	edits := rapid.SliceOfN(rapid.Custom(func(t *rapid.T) Edit {
+		return Edit{Pos: uint16(rapid.IntRange(0, 1500).Draw(t, "pos")), Val: rapid.SampledFrom([]uint8{'a', 'A', '0', '/', '%', ' ', '+', '&', '=', ';', ',', ':', '\n', '\r', '\t', 0, 0x7f, 0xff, '.', 'x'}).Draw(t, "val"), Op: uint8(rapid.IntRange(0, 5).Draw(t, "op"))}
+	}), 24, 24).Draw(t, "edits")
+	return Case{Req: r, Edits: edits}
 }
 
 func directed(env *ev.Env) []Case {
@@ -804,5 +827,167 @@ func TestC28(t *testing.T) {
 		Gen:      genCase,
 		Run:      run,
 		Directed: directed,
+	})
+}
+
+// ---- native fuzz target (thorough tier): single byte edits of the wire bytes --------------------------
+
+var fuzzBases = []sigreq.Req{
+	{Method: "GET", Bucket: "bucket", Key: "dir/a b+c%41é.txt", Host: "localhost:9000", Region: "us-east-1", Mode: sigreq.ModeHash, ShaHeader: true,
+		Query: []sigreq.KV{{K: "versionId", V: "a b"}, {K: "x", V: ""}}, Headers: []sigreq.KV{{K: "Range", V: "bytes=0-9"}, {K: "X-Amz-Meta-A", V: "one"}}, Body: gen.BodySpec{Kind: "rand", Len: 0}},
+	{Method: "PUT", Bucket: "bucket", Key: "obj", Host: "s3.example.com", Region: "eu-central-1", Cred: 1, Mode: sigreq.ModeHash, ShaHeader: true,
+		Headers: []sigreq.KV{{K: "Content-Type", V: "text/plain"}, {K: "X-Amz-Meta-A", V: "one"}, {K: "X-Amz-Meta-A", V: "two"}, {K: "X-Amz-Tagging", V: "k=v"}}, Body: gen.BodySpec{Kind: "text", Len: 40}, MD5: true},
+	{Method: "PUT", Bucket: "bucket", Key: "obj", Host: "localhost:9000", Region: "us-east-1", Cred: 2, Mode: sigreq.ModeHash, ShaHeader: false, Body: gen.BodySpec{Kind: "text", Len: 10}},
+	{Method: "PUT", Bucket: "bucket", Key: "u/n s", Host: "localhost:9000", Region: "us-east-1", Mode: sigreq.ModeUnsigned,
+		Query: []sigreq.KV{{K: "partNumber", V: "1"}, {K: "uploadId", V: "u"}}, Headers: []sigreq.KV{{K: "X-Amz-Storage-Class", V: "STANDARD"}}, Body: gen.BodySpec{Kind: "text", Len: 10}},
+	{Method: "GET", Bucket: "bucket", Key: "p/é +x", Host: "localhost:9000", Region: "us-east-1", Mode: sigreq.ModePresign, Expires: 900,
+		Query: []sigreq.KV{{K: "response-content-disposition", V: "attachment; filename=\"a b\""}}},
+	{Method: "PUT", Bucket: "bucket", Key: "pp", Host: "pithos.local", Region: "us-east-1", Cred: 1, Mode: sigreq.ModePresign, Expires: 60, ShaHeader: true,
+		Headers: []sigreq.KV{{K: "Content-Type", V: "text/plain"}, {K: "X-Amz-Meta-A", V: "m"}, {K: "X-Amz-Request-Payer", V: "requester"}}, Body: gen.BodySpec{Kind: "text", Len: 10}},
+	{Method: "PUT", Bucket: "bucket", Key: "s1", Host: "localhost:9000", Region: "us-east-1", Mode: sigreq.ModeStream, Body: gen.BodySpec{Kind: "text", Len: 30}, Chunks: []int{7, 16}, Trailer: "crc32", Framing: "sdk"},
+	{Method: "PUT", Bucket: "bucket", Key: "s2", Host: "localhost:9000", Region: "us-east-1", Mode: sigreq.ModeStreamTrailer, Body: gen.BodySpec{Kind: "text", Len: 30}, Chunks: []int{16}, Trailer: "crc32c", Framing: "sdk"},
+	{Method: "PUT", Bucket: "bucket", Key: "s3", Host: "localhost:9000", Region: "us-east-1", Mode: sigreq.ModeStreamTrailer, Body: gen.BodySpec{Kind: "text", Len: 20}, Chunks: []int{3, 64}, Trailer: "sha256", Framing: "doc"},
+}
+
+// propView is the part of a parsed request the property names: method, path, query, host, the originally
+// signed headers, every x-amz-* / Content-MD5 / Authorization header, and the body when it was signed.
+func propView(raw []byte, signed map[string]bool, bodySigned bool) string {
+	r, err := http.ReadRequest(bufio.NewReader(bytes.NewReader(raw)))
+	if err != nil {
+		return "unparsable"
+	}
+	var sb strings.Builder
+	fmt.Fprintf(&sb, "%s\n%s\n%s\n", r.Method, r.URL.Path, r.Host)
+	var qs []string
+	for k, vs := range r.URL.Query() {
+		for _, v := range vs {
+			qs = append(qs, k+"\x00"+v)
+		}
+	}
+	sort.Strings(qs)
+	sb.WriteString(strings.Join(qs, "\x01") + "\n")
+	var hs []string
+	for k, vs := range r.Header {
+		lk := strings.ToLower(k)
+		if !(signed[lk] || strings.HasPrefix(lk, "x-amz-") || lk == "content-md5" || lk == "authorization") {
+			continue
+		}
+		tr := make([]string, len(vs))
+		for i, v := range vs {
+			tr[i] = collapse(strings.TrimSpace(v))
+		}
+		hs = append(hs, lk+":"+strings.Join(tr, ","))
+	}
+	sort.Strings(hs)
+	sb.WriteString(strings.Join(hs, "\n") + "\n")
+	if bodySigned {
+		body, err := io.ReadAll(r.Body)
+		h := sha256.Sum256(body)
+		fmt.Fprintf(&sb, "%x %v", h, err)
+	}
+	return sb.String()
+}
+
+// Edit is one byte edit of the wire bytes: op%3 = replace / insert / delete, op&4 = inside the body (if it was signed).
+type Edit struct {
+	Pos uint16 `json:"pos"`
+	Val uint8  `json:"val"`
+	Op  uint8  `json:"op"`
+}
+
+func signedSet(w *sigreq.Wire) map[string]bool {
+	signed := map[string]bool{}
+	if p, ok := parseAuth(w.Header.Get("Authorization")); ok {
+		for _, h := range strings.Split(p.signed, ";") {
+			signed[h] = true
+		}
+	} else {
+		for _, p := range strings.Split(w.RawQuery, "&") {
+			if k, v, _ := strings.Cut(p, "="); k == "X-Amz-SignedHeaders" {
+				for _, h := range strings.Split(v, "%3B") {
+					signed[h] = true
+				}
+			}
+		}
+	}
+	return signed
+}
+
+// byteEdit applies one edit to the wire bytes of an accepted request; "" = property held (or edit not semantic).
+func byteEdit(q sigreq.Req, w *sigreq.Wire, s *sigreq.Signed, raw []byte, e Edit) (violation string, semantic bool) {
+	signed := signedSet(w)
+	streaming := q.Mode == sigreq.ModeStream || q.Mode == sigreq.ModeStreamTrailer
+	bodySigned := q.Mode == sigreq.ModeHash || streaming
+	headEnd := bytes.Index(raw, []byte("\r\n\r\n")) + 4
+	lo, hi := 0, headEnd
+	if e.Op&4 != 0 && bodySigned && len(raw) > headEnd {
+		lo, hi = headEnd, len(raw)
+	}
+	i := lo + int(e.Pos)%(hi-lo)
+	mut := append([]byte(nil), raw...)
+	switch e.Op % 3 {
+	case 0:
+		if mut[i] == e.Val {
+			return "", false
+		}
+		mut[i] = e.Val
+	case 1:
+		mut = append(mut[:i], append([]byte{e.Val}, mut[i:]...)...)
+	default:
+		mut = append(mut[:i], mut[i+1:]...)
+	}
+	inBody := lo == headEnd
+	if propView(mut, signed, bodySigned && !streaming) == propView(raw, signed, bodySigned && !streaming) && !(streaming && inBody) {
+		return "", false
+	}
+	res := sigreq.ServeRaw(q.Region, mut)
+	if res.Panic != nil {
+		return fmt.Sprintf("byte edit: the middleware panicked: %v", res.Panic), true
+	}
+	if !(res.Reached && res.Authenticated) {
+		return "", true
+	}
+	if streaming && inBody {
+		if res.BodyErr != nil {
+			return "", true
+		}
+		if bytes.Equal(res.Body, s.Payload) {
+			return "", false
+		}
+		return fmt.Sprintf("byte edit in the aws-chunked body at %d accepted: handler read %d bytes != payload %d bytes (mode %s)", i-headEnd, len(res.Body), len(s.Payload), q.Mode), true
+	}
+	if streaming && res.BodyErr != nil {
+		return "", true
+	}
+	return fmt.Sprintf("byte edit op=%d at byte %d (%q -> %q) accepted as %q although the request differs (mode %s):\n%s", e.Op%3, i, string(raw[max(0, i-20):min(len(raw), i+20)]), string(mut[max(0, i-20):min(len(mut), i+20)]), res.KeyID, q.Mode, string(mut[:min(len(mut), headEnd+1)])), true
+}
+
+func fuzzOne(which uint8, pos uint16, val uint8, op uint8) string {
+	q := fuzzBases[int(which)%len(fuzzBases)]
+	w, s, err := sigreq.Build(q, time.Now())
+	if err != nil {
+		return "harness: " + err.Error()
+	}
+	raw := w.Bytes()
+	base := sigreq.ServeRaw(q.Region, raw)
+	if !(base.Reached && base.Authenticated && base.BodyErr == nil && bytes.Equal(base.Body, s.Payload)) {
+		return "unmutated request not accepted: " + fmt.Sprint(base.Status)
+	}
+	v, _ := byteEdit(q, w, s, raw, Edit{Pos: pos, Val: val, Op: op})
+	return v
+}
+
+func FuzzC28(f *testing.F) {
+	for w := 0; w < len(fuzzBases); w++ {
+		f.Add(uint8(w), uint16(5), uint8('x'), uint8(0))
+		f.Add(uint8(w), uint16(40), uint8('/'), uint8(1))
+		f.Add(uint8(w), uint16(200), uint8('0'), uint8(2))
+		f.Add(uint8(w), uint16(3), uint8('E'), uint8(4))
+		f.Add(uint8(w), uint16(30), uint8('\n'), uint8(5))
+	}
+	f.Fuzz(func(t *testing.T, which uint8, pos uint16, val uint8, op uint8) {
+		if msg := fuzzOne(which, pos, val, op); msg != "" {
+			t.Fatal(msg)
+		}
 	})
 }
